@@ -4,7 +4,6 @@ import (
 	"fmt"
 	"strings"
 	"testing"
-	"testing/synctest"
 	"time"
 
 	"github.com/dapr/kit/cron"
@@ -402,7 +401,7 @@ func genSleep(rng *mon.RNG, jump bool) lop {
 func runLockstep(t *testing.T, idx int, mode string, rng *mon.RNG) {
 	jump := mode == "jump"
 	z := pickZone(rng)
-	chain := pickChain(rng)
+	chain := pickChain(rng, jump)
 	ops := genLockstep(rng, jump, z)
 	if chain != "none" {
 		// jobs that block across their own and other entries' activations, and more releases
@@ -446,7 +445,7 @@ func runLockstep(t *testing.T, idx int, mode string, rng *mon.RNG) {
 				w.mu.Unlock()
 			}
 			ls.do(o)
-			synctest.Wait()
+			w.barrier()
 			w.mu.Lock()
 			w.parkLog = "" // not provoked: disarm
 			w.mu.Unlock()
@@ -458,7 +457,7 @@ func runLockstep(t *testing.T, idx int, mode string, rng *mon.RNG) {
 				}
 				if held--; held == 0 {
 					w.releaseLog()
-					synctest.Wait()
+					w.barrier()
 				}
 			case w.logParked.Load():
 				// the live scheduler is held on a message of this instant: the next
@@ -481,7 +480,7 @@ func runLockstep(t *testing.T, idx int, mode string, rng *mon.RNG) {
 				} else {
 					w.releaseLog()
 				}
-				synctest.Wait()
+				w.barrier()
 			}
 			if !w.logParked.Load() {
 				w.checkRuns(ls.liveRun, mode)
@@ -506,7 +505,7 @@ func runLockstep(t *testing.T, idx int, mode string, rng *mon.RNG) {
 		ls.liveRun = 0
 		w.checkCtx(false, mode)
 		w.releaseForever(0)
-		synctest.Wait()
+		w.barrier()
 		if !w.viol.Load() {
 			ls.last = "final-stop"
 			ls.compareStarts()
@@ -521,7 +520,7 @@ func runLockstep(t *testing.T, idx int, mode string, rng *mon.RNG) {
 			} else {
 				time.Sleep(3 * time.Minute)
 			}
-			synctest.Wait()
+			w.barrier()
 			ls.last = "after-final-stop"
 			ls.compareStarts()
 		}
@@ -701,7 +700,7 @@ func (ls *lockstep) do(o lop) {
 // the wake-up began before the operation was even called.
 func (ls *lockstep) placeAfterWake(place string, started int) {
 	w, m := ls.w, ls.m
-	synctest.Wait()
+	w.barrier()
 	if !w.parked.Load() {
 		w.mu.Lock()
 		w.parkHook = ""
